@@ -541,11 +541,16 @@ impl<T: RcObject> Rc<T> {
     /// read-modify-write operations.
     #[inline(always)]
     pub fn new_many<const N: usize>(obj: T) -> [Self; N] {
-        let ptr = RcInner::alloc(obj, N as _);
+        // With no owner at all nobody would ever destruct the object: allocate one share and
+        // release it right away.
+        let ptr = RcInner::alloc(obj, N.max(1) as _);
         vevent!(Alloc {
             obj: ptr as usize,
             strong: N as u32
         });
+        if N == 0 {
+            drop(Self::from_raw(Raw::from(ptr)));
+        }
         [(); N].map(|_| Self {
             ptr: Raw::from(ptr),
             _marker: PhantomData,
@@ -560,11 +565,16 @@ impl<T: RcObject> Rc<T> {
     /// read-modify-write operations.
     #[inline(always)]
     pub fn new_many_iter(obj: T, count: usize) -> NewRcIter<T> {
-        let ptr = RcInner::alloc(obj, count as _);
+        // With no owner at all nobody would ever destruct the object: allocate one share and
+        // release it right away.
+        let ptr = RcInner::alloc(obj, count.max(1) as _);
         vevent!(Alloc {
             obj: ptr as usize,
             strong: count as u32
         });
+        if count == 0 {
+            drop(Self::from_raw(Raw::from(ptr)));
+        }
         NewRcIter {
             remain: count,
             ptr: Raw::from(ptr),
